@@ -3,7 +3,9 @@
 cd /verif
 out=scratch/seed_results.txt; : > $out
 if [ -n "$(git -C /repo status --porcelain)" ]; then echo "/repo not clean"; exit 1; fi
-for d in seeded/*/; do
+# optional arguments: names of seeded changes (default: all of them)
+if [ $# -gt 0 ]; then dirs=$(for n in "$@"; do echo seeded/$n/; done); else dirs=$(ls -d seeded/*/); fi
+for d in $dirs; do
   name=$(basename $d); prop=${name%%-*}
   git -C /repo apply /verif/$d/patch.diff || { echo "$name: patch does not apply" >> $out; continue; }
   VERIF_SELFTEST=1 ./check $prop > scratch/seed_run.out 2>&1; rc=$?      # (self-test: evidence and replays go to scratch/)
